@@ -2,7 +2,8 @@
    invariants; who is woken when; when a cycle is reported; reachable states. *)
 From Coq Require Import Permutation.
 From Salsa Require Import Base.
-From Salsa.Proto Require Import Model ProofsGraph ProofsList ProofsInv ProofsTransfer ProofsWake.
+From Salsa.Proto Require Import Model ProofsGraph ProofsList ProofsInv ProofsTransfer ProofsWake
+  ProofsSubtree.
 
 (* ------------------------------------------------------------------------------------------ *)
 (* Client preconditions                                                                        *)
@@ -567,3 +568,16 @@ Lemma release_wakes_all fuel s t k r s' out :
   (forall d, (forall u, edges (dg s) d <> Some (u, k)) ->
              wait_key (dg s') d = wait_key (dg s) d /\ wres (dg s') d = wres (dg s) d).
 Proof. intros HR. apply unblock_wakes_all. eapply reachable_Inv; eauto. Qed.
+
+Lemma release_target_wakes_all fuel s t k r s' out :
+  reachable fuel s -> step fuel s (OUnblockTransferred t k r) = ROk (s', out) ->
+  transferred (dg s') k = None /\ tdeps (dg s') k = None /\
+  (forall x, x <> k -> reaches (tproj (dg s)) x k ->
+     cleared (dg s') x /\
+     forall d u, edges (dg s) d = Some (u, x) ->
+                 edges (dg s') d = None /\ wres (dg s') d = Some r).
+Proof.
+  intros HR H. apply reachable_Inv in HR as [HE HT]. cbn [step] in H.
+  apply bind_ok in H as (g1 & H1 & H). injection H as <- _. cbn [dg set_dg].
+  eapply unblock_transferred_covers; eauto.
+Qed.
